@@ -4,7 +4,8 @@ import WpModel.Drive.ContentCheck
 import WpModel.Drive.PdfPages
 import WpModel.Drive.DrawSkeleton
 import WpModel.Drive.PdfFile
+import WpModel.Drive.PdfFonts
 
 def main : IO Unit := Wp.Drive.runDriver
   [Wp.Drive.PdfStream.handle, Wp.Drive.ContentCheck.handle, Wp.Drive.PdfPages.handle, Wp.Drive.DrawSkeleton.handle,
-   Wp.Drive.PdfFile.handle]
+   Wp.Drive.PdfFile.handle, Wp.Drive.PdfFonts.handle]
